@@ -5544,8 +5544,14 @@ CMR_ERROR CMRgraphicTestMatrix(CMR* cmr, CMR_CHRMAT* matrix, bool* pisGraphic, C
     stats->transposeTime -= transposeTime;
   }
 
-  CMR_CALL( CMRgraphicTestTranspose(cmr, transpose, pisGraphic, pgraph, pforestEdges, pcoforestEdges, psubmatrix,
-    stats, timeLimit) );
+  CMR_ERROR error = CMRgraphicTestTranspose(cmr, transpose, pisGraphic, pgraph, pforestEdges, pcoforestEdges, psubmatrix,
+    stats, timeLimit);
+  if (error)
+  {
+    /* E.g., a timeout: free the transpose before passing the error on. */
+    CMR_CALL( CMRchrmatFree(cmr, &transpose) );
+    return error;
+  }
 
   if (stats)
     stats->totalTime += transposeTime;
